@@ -51,6 +51,10 @@ def menu(d):
     M["ok_fn_real"] = ("loads", H + "G(sqrt(4.0), log(1.0), exp(1.0), arccos(1.0), sqrt(-4.0), arctan(0.0)) | 0\n")
     M["ok_fn_complex"] = ("loads", H + "G(sqrt(4+0j), log(1+0j), exp(1+0j), arccos(1+0j), sqrt(-4+0j), arctan(0j)) | 0\n")
     M["ok_fn_int"] = ("loads", H + "int k = 4\nG(sqrt(k), log(1), exp(1), arccos(1), sqrt(-k), arctan(0)) | 0\n")
+    # scripts near resource limits: deep bracket nesting loads; a very long unbracketed chain exhausts the recursion limit
+    M["ok_deep_brackets"] = ("loads", H + "G(" + "(" * 200 + "1" + ")" * 200 + ", 2) | 0\n")
+    M["bad_long_chain"] = ("loads", H + "G(" + "+".join(["1"] * 1000) + ") | 0\n")
+    M["ok_inc_chain"] = ("load", os.path.join(d, "main_chain.xbb"))       # the rewritten file is included only indirectly
     M["bad_lex"] = ("loads", H + "int n = 7\n$\n")
     M["bad_syntax"] = ("loads", H + "int n = 7\nG( | 0\n")
     # scripts whose evaluation goes through process-wide numeric settings: singular but valid values, failing divisions
@@ -100,7 +104,7 @@ def menu(d):
 
 SUB = {"v1": "name Sub\nversion 1.0\n\nfloat n = 0.25\nA({x}, n) | 0\nB | [1, 0]\n",
        "v2": "name Sub\nversion 1.0\n\nfloat n = 0.75\nC(n, {x}) | 1\nB | [0, 1]\nD | 0\n"}
-USES_SUB = ("ok_inc", "ok_inc_file", "bad_inc_call", "bad_inc_second", "ok_inc_dup", "ok_inc_nested_dup")
+USES_SUB = ("ok_inc", "ok_inc_file", "bad_inc_call", "bad_inc_second", "ok_inc_dup", "ok_inc_nested_dup", "ok_inc_chain")
 
 
 def write_files(d):
@@ -115,6 +119,7 @@ def write_files(d):
         w(proj + "/main.xbb", H + 'include "sub.xbb"\n\nSub(x=1) | [2, 3]\n')
     w("lib_dup.xbb", "name Lib\nversion 1.0\ninclude \"sub.xbb\"\n\nSub(x=5) | [0, 1]\nL | 0\n")
     w("main_nested_dup.xbb", H + 'include "lib_dup.xbb"\ninclude "sub.xbb"\n\nLib | [2, 3]\nSub(x=1) | [4, 5]\n')
+    w("main_chain.xbb", H + 'include "lib_dup.xbb"\n\nLib | [2, 3]\nG | 0\n')
     w("main_second_bad.xbb", H + 'include "sub.xbb"\ninclude "broken.xbb"\n\nSub(x=1) | [1, 2]\n')
 
 
@@ -351,7 +356,7 @@ def run(ctx):
     nonfs = [k for k in keys if M[k][0] != "fs"]
     reps = [(k,) * R for k in nonfs]
     alt = [("ok_inc_dup", "ok_inc"), ("ok_inc_nested_dup", "bad_inc_syntax"), ("bad_inc_missing", "ok_inc_file"), ("fs_sub_v2", "ok_inc_dup", "fs_sub_v1", "ok_inc_dup"),
-           ("ok_fn_real", "ok_fn_complex", "ok_fn_int"), ("ok_tmpl", "bad_undef_tmpl"), ("ok_tdm", "probe_plain_p0"), ("rel_projA", "rel_projB"), ("bad_syntax", "ok_plain"), ("bad_loop", "ok_loop")]
+           ("ok_fn_real", "ok_fn_complex", "ok_fn_int"), ("ok_tmpl", "bad_undef_tmpl"), ("ok_tdm", "probe_plain_p0"), ("rel_projA", "rel_projB"), ("bad_syntax", "ok_plain"), ("bad_loop", "ok_loop"), ("ok_inc_chain", "fs_sub_v2", "ok_inc_chain", "fs_sub_v1"), ("bad_long_chain", "ok_deep_brackets", "bad_long_chain")]
     reps += [tuple(a) * (R // len(a)) for a in alt]
     raw = raw + reps
     raw = common.shard(raw, ctx.seed)
